@@ -107,7 +107,7 @@ ITEM_PROPS = {
 
 
 def translator_item_props(item):
-    if item.split(".")[0] in ("steps", "setters", "readers", "layout"):
+    if item.split(".")[0] in ("steps", "setters", "readers", "layout", "fingerprint"):
         # Gen/{Steps,Setters,Readers}/<Module>.lean (translator items T7-T20): the properties whose theorems are built on that group of functions
         import translate
         return translate.step_module_props().get(item, set())
@@ -126,7 +126,7 @@ def lean_side(pid, tier):
     else:
         for item, why in (tr.get("fallbacks") or {}).items():
             if pid in translator_item_props(item):
-                res["problems"].append("translator: source item %s no longer has the recognised shape (%s); the expected text was used instead" % (item, why[:120]))
+                res["problems"].append("translator: source item %s no longer has the recognised shape (%s); the expected text was used instead" % (item, why[:400]))
     ok, out = lib.lake_build(("CatVerif", "catdrv"))
     res["build_ok"] = ok
     if not ok:
